@@ -115,6 +115,17 @@ Fixpoint default_checker (cs : list chunk) : bool :=
       else false
   end.
 
+(* the chunk lists on which the first-chunk checker goes wrong (known finding F-C18): a chunk
+   with non-empty content and no tool-call fragment comes before the first chunk that carries one *)
+Fixpoint content_before_toolcall (cs : list chunk) : bool :=
+  match cs with
+  | [] => false
+  | c :: r =>
+      if has_frags c then false
+      else if String.eqb (k_content c) "" then content_before_toolcall r
+      else existsb has_frags r
+  end.
+
 (* a checker that reads the whole stream *)
 Definition exact_checker (cs : list chunk) : bool := existsb has_frags cs.
 
